@@ -119,6 +119,17 @@ func observeC40Compact(c vt.Case) (ev vt.Event) {
 		}
 		dsDirs = append(dsDirs, filepath.Join(rdir, id.String()))
 	}
+	// the downsampled input blocks, as the compactor reads them (for the record; not judged)
+	ins := []any{}
+	for _, d := range dsDirs {
+		chs, err := readAggrBlock(d)
+		if err != nil {
+			ev["err"] = "reading downsampled block: " + err.Error()
+			return ev
+		}
+		ins = append(ins, chs)
+	}
+	ev["ins"] = ins
 	ev["nin"] = nin
 	if len(dsDirs) < 2 {
 		return nil // nothing to merge: not a case
@@ -142,24 +153,31 @@ func observeC40Compact(c vt.Case) (ev vt.Event) {
 		ev["err"] = fmt.Sprintf("compaction produced %d blocks", len(ids))
 		return ev
 	}
-	bdir := filepath.Join(outDir, ids[0].String())
-	ir, err := index.NewFileReader(filepath.Join(bdir, "index"), index.DecodePostingsRaw)
+	out, err := readAggrBlock(filepath.Join(outDir, ids[0].String()))
 	if err != nil {
 		ev["err"] = err.Error()
 		return ev
 	}
+	ev["out"] = out
+	return ev
+}
+
+// readAggrBlock returns the aggregate timestamps of every chunk of the single series of a block.
+func readAggrBlock(bdir string) ([]any, error) {
+	ir, err := index.NewFileReader(filepath.Join(bdir, "index"), index.DecodePostingsRaw)
+	if err != nil {
+		return nil, err
+	}
 	defer ir.Close()
 	cr, err := chunks.NewDirReader(filepath.Join(bdir, "chunks"), downsample.NewPool())
 	if err != nil {
-		ev["err"] = err.Error()
-		return ev
+		return nil, err
 	}
 	defer cr.Close()
 	k, v := index.AllPostingsKey()
 	p, err := ir.Postings(context.Background(), k, v)
 	if err != nil {
-		ev["err"] = err.Error()
-		return ev
+		return nil, err
 	}
 	out := []any{}
 	nser := 0
@@ -168,29 +186,25 @@ func observeC40Compact(c vt.Case) (ev vt.Event) {
 		var lb labels.ScratchBuilder
 		var chks []chunks.Meta
 		if err := ir.Series(p.At(), &lb, &chks); err != nil {
-			ev["err"] = err.Error()
-			return ev
+			return nil, err
 		}
 		for _, m := range chks {
 			ch, _, err := cr.ChunkOrIterable(m)
 			if err != nil {
-				ev["err"] = err.Error()
-				return ev
+				return nil, err
 			}
 			m.Chunk = ch
 			o, err := aggrRuns(m)
 			if err != nil {
-				ev["err"] = err.Error()
-				return ev
+				return nil, err
 			}
 			out = append(out, o)
 		}
 	}
 	if nser != 1 {
-		ev["err"] = fmt.Sprintf("compacted block holds %d series for one label set", nser)
+		return out, fmt.Errorf("block holds %d series for one label set", nser)
 	}
-	ev["out"] = out
-	return ev
+	return out, p.Err()
 }
 
 // aggrRuns records the timestamps of the five aggregates of one aggregate chunk (run-length encoded).
